@@ -611,6 +611,9 @@ def with_decoy(mod, case, seed_str):
             case = dict(case, bnet=mangle_names(rng, case["bnet"]))
         if rng.random() < getattr(mod, "FREE_INPUTS", 0.06):
             case = dict(case, bnet=free_inputs(rng, case["bnet"]))
+        if "order" not in case and rng.random() < getattr(mod, "ORDER", 0.08):
+            # variables declared in a non-alphabetical order (`BooleanNetwork(variables=[...])`; honoured by plain.make_sd)
+            case = dict(case, order=[rng.randrange(64) for _ in range(8)])
     except Exception:
         pass
     if rng.random() >= p:
